@@ -4,7 +4,8 @@ from vlib.runner import SubCheck
 
 PROPERTY = "C20"
 RULE = ("Generated operation histories (lists of ops interpreted against the implementation and a naive model, "
-        "oracle after every step). union-find: non-trivial = history contains a union joining two blocks that both "
+        "oracle after every step; keys also passed as fresh temporaries equal to the stored elements, the structure cloned by "
+        "copy / deepcopy / pickle mid-history, priorities as floats or Python ints of any size). union-find: non-trivial = history contains a union joining two blocks that both "
         "have >=2 elements followed by a query; queue: non-trivial = two pending items tie on priority when one of them is "
         "popped. distinct = distinct realised histories.")
 ASSUMPTIONS = ["elements are hashable immutable values (ints of any size, tuples, strings), also passed as temporaries equal to the stored ones",
